@@ -362,6 +362,11 @@ class DirectoryRecord:
         if self.parent is None:
             raise pycdlibexception.PyCdlibInternalError('Invalid call to create new Rock Ridge on root directory')
 
+        if self.dr_len + rockridge.RRCERecord.length() > rockridge.ALLOWED_DR_SIZE:
+            # Not even a continuation entry fits behind the identifier, so the
+            # Rock Ridge entries cannot be recorded at all.
+            raise pycdlibexception.PyCdlibInvalidInput('Identifier is too long to fit into a Rock Ridge directory record')
+
         self.rock_ridge = rockridge.RockRidge()
         is_first_dir_record_of_root = self.file_ident == b'\x00' and self.parent.is_root
         bytes_to_skip = 0
@@ -502,6 +507,10 @@ class DirectoryRecord:
             self.dr_len += XARecord.length()
 
         self.dr_len += (self.dr_len % 2)
+
+        if self.dr_len > 254:
+            # The record length is a single byte and records have even length.
+            raise pycdlibexception.PyCdlibInvalidInput('Identifier is too long to fit into a directory record')
 
         if self.is_root:
             self._printable_name = '/'.encode(vd.encoding)
